@@ -120,6 +120,10 @@ def faults(g):
         at=len('<%block name="dup6">\n<%block>a' + "\n" * k))
     add("block-def-clash", '<%def name="dup8()">1</%def><%block name="dup8">2</%block>', at=len('<%def name="dup8()">1</%def>'))
     add("named-block-in-def", '<%def name="d9()">a<%block name="nb9">x</%block></%def>', at=len('<%def name="d9()">a'))
+    nbd = '<%def name="d9()">a<%block>b\n' + "c\n" * k + "  "
+    add("named-block-in-anon-block-in-def", nbd + '<%block name="nb8">x</%block></%block></%def>', at=len(nbd))
+    nbc = '<%call expr="f()">a<%block>\n<%block>b\n' + "c\n" * k  # (anonymous blocks are named after their line: one per line)
+    add("named-block-in-anon-blocks-in-call", nbc + '<%block name="nb7">x</%block></%block></%block></%call>', at=len(nbc))
     add("named-block-in-call", '<%call expr="f()">a<%block name="nb9">x</%block></%call>', at=len('<%call expr="f()">a'))
     nsp = '<%namespace name="nq9">\n<%def name="nd9()">d</%def>\n' + "\n" * k + "  "
     add("anon-block-in-namespace", nsp + "<%block>x</%block>\n</%namespace>", at=len(nsp))
